@@ -28,6 +28,7 @@ import (
 	"math/rand"
 	"net"
 	"os"
+	"os/exec"
 	"sort"
 	"strings"
 	"sync"
@@ -191,13 +192,24 @@ func (e *env) close() {
 	for _, f := range e.closers {
 		f()
 	}
+	e.cs.releasePorts()
 }
 
 func (e *env) serverPort(role string, relay bool) (int, error) {
 	if !relay {
 		return e.w.Port, nil
 	}
-	r, err := h.StartTCPRelay(pa.Get(), e.w.addr(), 64)
+	var r *h.TCPRelay
+	var err error
+	for try := 0; try < 5; try++ {
+		port := e.cs.getPort()
+		if r, err = h.StartTCPRelay(port, e.w.addr(), 64); err == nil {
+			break
+		}
+		out, _ := exec.Command("ss", "-tanp", "sport", "=", fmt.Sprint(port)).CombinedOutput()
+		fmt.Fprintf(os.Stderr, "case %d: relay listen on %d failed: %v\n%s\n", e.c.Idx, port, err, out)
+		run.Count("relay_port_retries", 1)
+	}
 	if err != nil {
 		return 0, err
 	}
@@ -232,7 +244,7 @@ func (e *env) build(specs []tunSpec, relay bool) error {
 			return err
 		}
 		t.be = be
-		port := pa.Get()
+		port := e.cs.getPort()
 		t.Public = &net.UDPAddr{IP: net.IPv4(127, 0, 0, 1), Port: port}
 		e.cs.tunnels = append(e.cs.tunnels, t)
 		if sp.Kind == "udp" {
@@ -893,17 +905,21 @@ func closeCase(c *h.Case, k int) {
 	}
 	switch variant {
 	case "session-cut-in-burst":
-		w := &world{Size: sizes[rng.Intn(len(sizes))], Mux: rng.Intn(2) == 0, Port: pa.Get()}
+		w := &world{Size: sizes[rng.Intn(len(sizes))], Mux: rng.Intn(2) == 0}
+		e := newEnv(c, w)
+		defer e.close()
+		w.Port = e.cs.getPort()
 		ch, err := h.StartChild(prop, "frps", serverText(w.Port, w.Size, w.Mux))
 		if err != nil {
+			if ch != nil {
+				ch.Kill()
+			}
 			run.Inconclusive("setup: child frps")
 			return
 		}
-		defer ch.Kill()
+		e.closers = append(e.closers, ch.Kill) // after the in-process frpc has been closed
 		w.child = ch
 		c.Data["world"] = map[string]any{"udpPacketSize": w.Size, "tcpMux": w.Mux, "frps": "child process"}
-		e := newEnv(c, w)
-		defer e.close()
 		e.stressBig = true
 		specs := []tunSpec{{Kind: "udp", Enc: rng.Intn(2) == 0, Comp: rng.Intn(2) == 0}}
 		if rng.Intn(2) == 0 {
